@@ -15,8 +15,18 @@ ASSUMPTIONS = [
     "ensure_single wires and equations, the block/glue/function lines, all counters and the flush pointer are the model's own and are "
     "compared line by line with pysnark_eqs, pysnark_wires, pysnark_values, pysnark_schedule, pysnark_eqs_<fn> and with the content of "
     "pysnark_eqs that qapsplit actually read; the values of the random wires (delta*, rnd*) are read back from the real wire file",
-    "the digest is a parameter of the model; the driver instantiates it with the text MD5 is applied to, the harness applies MD5 and "
-    "compares with the digests the real run prints",
+    "the digest is a parameter of the model, its ARGUMENT is not: Qaptools.digestInput (the lines of the normalised set, rendered with "
+    "single blanks, in sorted order, nothing between the lines) is printed by the driver per function; the harness applies hashlib.md5 "
+    "to exactly that byte string (utf-8) and compares the first ten hex digits with the signature the real run hands to key generation "
+    "(fourth component of qapsplit()'s return value) and with the digests it prints per call",
+    "what prove() reads is text: the driver runs qapsplit on the equation file RE-READ from its rendered text (proveText: split at "
+    "blanks, names cut at their first '/'), which is the identity for well-formed names (C12_text_file) and reproduces the real "
+    "behaviour for function names with '/' (C12_cex_slash_name); a function name with a blank is outside the model (compared up to the "
+    "split, counted as unmodelled)",
+    "guards: the worker reports runtime.guard (value and wire expression) before a call returns whenever it changed (event g:), the "
+    "model's ensure_single writes the two extra lines of a guarded assertion; exceptions: the worker reports a body that raised (event "
+    "a), the model pops the frame and keeps the context, as the code does; the context the backend is in after an exception was caught "
+    "is read from backend.vc_ctx by the worker (direct observation of the state named in the property's anchors)",
     "calls of one named function whose bodies differ only in the multiplicity of an equation line are ordinary traces for the model "
     "(repeated add_constraint events): they are compared with the model like every other case, none is oracle-only; the oracle counts "
     "lines as a multiset, as the unchanged qapsplit does (duplicate lines are kept, sorted, written and digested)",
@@ -35,6 +45,13 @@ PARTIAL = [
     "C12_glue_lists_all_partial: the blocks list every argument and result of class LinComb (C12_cex_uncopied_bool: LinCombBool / "
     "LinCombFxp leaves are not listed)",
     "C12_split_complete_partial / C12_glue_equal_partial also cover the code before the two fix: commits (Cfg with either switch off)",
+    "C12_split_ok_partial additionally excludes a guard in effect when a call returns and bodies that raise (C12_cex_guard_across, "
+    "C12_cex_abort_context); the satisfaction, names, per-function-file, schedule and bracketing theorems hold for ALL histories, those included",
+    "C12_function_file_sat, third clause ('the ONE file written for a function holds for EVERY call of it') is relative to the digest "
+    "separating the normalised sets of the run (otherwise prove() has compared digests only); first clause (every line of the normalised "
+    "set of a call holds for that call) is unconditional",
+    "C12_text_file: for histories whose names are well formed (no blank; no '/' in function names / contexts): C12_cex_slash_name",
+    "C12_digest_input_not_injective: the digest input does not determine the line list (no separator between lines)",
 ]
 TRUSTED_EXTRA = ["harness/worker_qap.py (records the backend-level trace by wrapping the backend's module-level functions from outside), "
                  "the text-level equation evaluator and multiset comparison in harness/props/c12.py, the stub qaptools executables"]
@@ -61,6 +78,7 @@ class Gen:
     def __init__(self, rnd, flavour):
         self.rnd = rnd; self.flavour = flavour
         self.funcs = {}; self.order = []
+        self.raisers = set()            # functions whose body raises: a call yields no register
         self.tags = set()
 
     def small(self):
@@ -75,13 +93,15 @@ class Gen:
         return v, 50
 
     # ---- straight-line code over a register file
-    def ring_ops(self, regs, out, n, in_body):
+    def ring_ops(self, regs, out, n, in_body, pure=False):
+        """`pure`: only operations that write no assertion-like equation (nothing a guard in effect would tie to itself)"""
         rnd = self.rnd
         for _ in range(n):
             L = [i for i, r in enumerate(regs) if r.kind == "L"]
             if not L:
                 v, b = self.value(); out.append(["priv", v]); regs.append(Reg("L", b)); continue
             c = rnd.random()
+            if pure: c = c * 0.82
             a = rnd.choice(L); b = rnd.choice(L)
             def bnd(f, x, y):
                 return None if x is None or y is None else min(f(x, y), 2 ** 600)
@@ -115,10 +135,11 @@ class Gen:
             elif not in_body:
                 out.append(["val", a]); self.tags.add("op:val")
 
-    def new_func(self, nparams_kinds):
+    def new_func(self, nparams_kinds, name=None, pure=False):
         """define a function for parameter kinds (list of 'L'/'B'/'X'); returns its name"""
         rnd = self.rnd
-        name = rnd.choice(["f", "g", "sq", "mix", "h"]) + str(len(self.funcs))
+        if name is None:
+            name = rnd.choice(["f", "g", "sq", "mix", "h"]) + str(len(self.funcs))
         variants = {}
         nvar = 2 if (self.flavour == "variants") else 1
         for m in range(nvar):
@@ -138,12 +159,15 @@ class Gen:
                 if len(Bs) >= 2 and rnd.random() < 0.6:
                     body.append(["band", Bs[0], Bs[1]]); regs.append(Reg("B", 1)); self.tags.add("op:band-on-uncopied")
             # nested call of an earlier function
-            if self.order and rnd.random() < (0.45 if self.flavour in ("nested", "calls") else 0.15):
-                self.ring_ops(regs, body, rnd.randrange(0, 2), True)
-                self.emit_call(regs, body, rnd.choice(self.order), True)
+            callable_ = [n for n in self.order if n not in self.raisers]
+            if callable_ and rnd.random() < (0.45 if self.flavour in ("nested", "calls") else 0.15):
+                self.ring_ops(regs, body, rnd.randrange(0, 2), True, pure)
+                self.emit_call(regs, body, rnd.choice(callable_), True)
                 self.tags.add("call:nested")
-            self.ring_ops(regs, body, rnd.randrange(1, 4) + m, True)
+            self.ring_ops(regs, body, rnd.randrange(1, 4) + m, True, pure)
             ret = self.ret_spec(regs)
+            if pure and rnd.random() < 0.6:
+                ret = rnd.choice([i for i, r in enumerate(regs) if r.kind == "L"])
             variants[str(m)] = {"body": body, "ret": ret}
         self.funcs[name] = {"params": nparams_kinds, "variants": variants}
         self.order.append(name)
@@ -192,7 +216,8 @@ class Gen:
             out.append(["muli", a, 1]); regs.append(Reg("L", None)); self.tags.add("arg:times-one"); return len(regs) - 1
         self.tags.add("arg:wire"); return a
 
-    def emit_call(self, regs, out, fname, in_body, mode=None):
+    def emit_call(self, regs, out, fname, in_body, mode=None, aborted=False):
+        """`aborted`: the body raises, the call yields no register"""
         rnd = self.rnd
         f = self.funcs[fname]
         idx = [self.arg_for(regs, out, k) for k in f["params"]]
@@ -203,6 +228,8 @@ class Gen:
             specs.insert(rnd.randrange(len(specs) + 1), {"int": rnd.choice([0, 7, -2])}); self.tags.add("arg:int")
         mode = mode if mode is not None else "0"
         out.append(["call", fname, mode, specs])
+        if aborted:
+            return
         # registers for the leaves of the result: classes unknown to the generator beyond L/B/X of the spec
         def leaves(s, var):
             if isinstance(s, int): return [s]
@@ -225,7 +252,10 @@ class Gen:
                 if op in ("priv", "pub", "const", "add", "sub", "mul", "addi", "muli", "neg", "tolc"): kinds.append("L")
                 elif op in ("privb", "lt", "lti", "eq", "eqi", "band", "bnot"): kinds.append("B")
                 elif op == "privx": kinds.append("X")
+                elif op == "guard": walk(ins[2])
+                elif op == "try": walk(ins[1])
                 elif op == "call":
+                    if ins[1] in self.raisers: continue
                     g = self.funcs[ins[1]]
                     def lv(s):
                         if isinstance(s, int): return [s]
@@ -406,8 +436,190 @@ class Gen:
                 "tags": sorted(self.tags)}
 
 
+    # ---- guards in effect across a call boundary
+    def guard_case(self, cid):
+        rnd = self.rnd
+        sc = rnd.choice(["wire-args", "wire-args", "multi-arg", "any", "any", "inside", "nested-guard"])
+        self.tags.add("guard:" + sc)
+        regs = []; main = []
+        for _ in range(rnd.randrange(1, 3)):
+            main.append(["priv", self.small()]); regs.append(Reg("L", 50))
+        pure = sc in ("wire-args", "multi-arg", "inside", "nested-guard")
+        for _ in range(rnd.randrange(1, 3)):
+            self.new_func(["L"] * rnd.randrange(1, 3), pure=pure)
+        if sc == "inside":
+            # the guard is created, applied and released inside one body: everything stays in the callee's context
+            name = "gin" + str(len(self.funcs))
+            b = [["privb", rnd.choice([0, 1, 1])]]; r = [Reg("L", 50), Reg("B", 1)]
+            inner = []
+            self.ring_ops(r, inner, rnd.randrange(1, 3), True)
+            if rnd.random() < 0.6:
+                self.emit_call(r, inner, rnd.choice(self.order), True); self.tags.add("call:nested")
+            b.append(["guard", 1, inner])
+            self.ring_ops(r, b, rnd.randrange(0, 2), True, True)
+            self.funcs[name] = {"params": ["L"], "variants": {"0": {"body": b, "ret": rnd.choice([i for i, x in enumerate(r) if x.kind == "L"])}}}
+            self.order.append(name)
+            self.emit_call(regs, main, name, False)
+        else:
+            g = len(regs); main.append(["privb", rnd.choice([0, 1, 1])]); regs.append(Reg("B", 1))
+            inner = []; target = inner
+            if sc == "nested-guard":
+                g2 = len(regs); inner.append(["privb", rnd.choice([0, 1, 1])]); regs.append(Reg("B", 1))
+                target = []
+            for i in range(rnd.randrange(1, 3)):
+                self.ring_ops(regs, target, rnd.randrange(0, 2), False, pure)
+                fname = rnd.choice(self.order)
+                if sc == "wire-args":
+                    f = self.funcs[fname]
+                    idx = []
+                    for _ in f["params"]:
+                        L = [j for j, x in enumerate(regs) if x.kind == "L" and x.bound is not None and x.bound <= 50]
+                        idx.append(rnd.choice(L))
+                    target.append(["call", fname, "0", idx])
+                    def lv(s_):
+                        if isinstance(s_, int): return [s_]
+                        if "int" in s_: return [None]
+                        return [x for y in s_.get("list", s_.get("tuple")) for x in lv(y)]
+                    for l in lv(f["variants"]["0"]["ret"]):
+                        regs.append(Reg("int", None) if l is None else Reg(self.kind_in_body(f, "0", l), None))
+                else:
+                    self.emit_call(regs, target, fname, False)
+            if sc == "nested-guard":
+                inner.append(["guard", g2, target])
+            main.append(["guard", g, inner])
+        self.ring_ops(regs, main, rnd.randrange(0, 3), False)
+        L = [i for i, r in enumerate(regs) if r.kind == "L"]
+        if L and rnd.random() < 0.7:
+            main.append(["val", rnd.choice(L)]); self.tags.add("op:val")
+        return {"id": cid, "flavour": "guard", "funcs": {k: {"variants": v["variants"]} for k, v in self.funcs.items()}, "main": main,
+                "tags": sorted(self.tags)}
+
+    # ---- bodies that raise
+    def raise_case(self, cid):
+        rnd = self.rnd
+        sc = rnd.choice(["top-caught", "top-caught", "nested-caught", "nested-propagates", "uncaught", "twice"])
+        self.tags.add("raise:" + sc)
+        regs = []; main = []
+        for _ in range(rnd.randrange(1, 3)):
+            main.append(["priv", self.small()]); regs.append(Reg("L", 50))
+        # the function that raises: some operations, the exception, operations that never run
+        tname = "thr" + str(len(self.funcs))
+        tr = [Reg("L", 50)]; tb = []
+        self.ring_ops(tr, tb, rnd.randrange(0, 3), True, True)
+        tb.append(["raise"])
+        self.funcs[tname] = {"params": ["L"], "variants": {"0": {"body": tb, "ret": 0}}}
+        self.raisers.add(tname)
+        def small_wire(rs, out):
+            L = [j for j, x in enumerate(rs) if x.kind == "L" and x.bound is not None and x.bound <= 50]
+            if not L:
+                out.append(["priv", self.small()]); rs.append(Reg("L", 50)); L = [len(rs) - 1]
+            return rnd.choice(L)
+        if sc in ("top-caught", "twice", "uncaught"):
+            if rnd.random() < 0.5:
+                ok = self.new_func(["L"], pure=True); self.emit_call(regs, main, ok, False)
+            call = ["call", tname, "0", [small_wire(regs, main)]]
+            main.append(call if sc == "uncaught" else ["try", [call]])
+            if sc == "twice":
+                self.ring_ops(regs, main, rnd.randrange(0, 2), False, True)
+                main.append(["try", [["call", tname, "0", [small_wire(regs, main)]]]])
+        else:
+            oname = "out" + str(len(self.funcs))
+            orr = [Reg("L", 50)]; ob = []
+            self.ring_ops(orr, ob, rnd.randrange(0, 2), True, True)
+            call = ["call", tname, "0", [small_wire(orr, ob)]]
+            ob.append(["try", [call]] if sc == "nested-caught" else call)
+            self.ring_ops(orr, ob, rnd.randrange(1, 3), True, True)
+            self.funcs[oname] = {"params": ["L"], "variants": {"0": {"body": ob, "ret": rnd.choice([i for i, x in enumerate(orr) if x.kind == "L"])}}}
+            self.order.append(oname)
+            if sc == "nested-caught":
+                self.emit_call(regs, main, oname, False)
+            else:
+                self.raisers.add(oname)
+                main.append(["try", [["call", oname, "0", [small_wire(regs, main)]]]])
+        if sc != "uncaught":
+            # the program goes on after the exception
+            self.ring_ops(regs, main, rnd.randrange(1, 3), False, True)
+            if rnd.random() < 0.5:
+                ok = self.new_func(["L"], pure=True); self.emit_call(regs, main, ok, False)
+            L = [i for i, r in enumerate(regs) if r.kind == "L"]
+            if L and rnd.random() < 0.7:
+                main.append(["val", rnd.choice(L)]); self.tags.add("op:val")
+        return {"id": cid, "flavour": "raise", "funcs": {k: {"variants": v["variants"]} for k, v in self.funcs.items()}, "main": main,
+                "tags": sorted(self.tags)}
+
+    # ---- function names containing the separator of the wire grammar
+    def names_case(self, cid):
+        rnd = self.rnd
+        regs = []; main = []
+        for _ in range(rnd.randrange(1, 3)):
+            main.append(["priv", self.small()]); regs.append(Reg("L", 50))
+        nm = rnd.choice(["a/b", "lib/sq", "f/1", "x/y/z", "/lead", "trail/", "main/sq"])
+        self.tags.add("name:slash")
+        self.new_func(["L"] * rnd.randrange(1, 3), name=nm, pure=True)
+        if rnd.random() < 0.5:
+            self.new_func(["L"], pure=True)
+        for i in range(rnd.randrange(1, 3)):
+            self.ring_ops(regs, main, rnd.randrange(0, 2), False, True)
+            self.emit_call(regs, main, rnd.choice(self.order), False)
+        L = [i for i, r in enumerate(regs) if r.kind == "L"]
+        if L and rnd.random() < 0.7:
+            main.append(["val", rnd.choice(L)]); self.tags.add("op:val")
+        return {"id": cid, "flavour": "names", "funcs": {k: {"variants": v["variants"]} for k, v in self.funcs.items()}, "main": main,
+                "tags": sorted(self.tags)}
+
+    # ---- one named function, two bodies whose equation TEXTS differ only in where a token boundary sits
+    RESPACE = [((1, 11), (11, 1)), ((1, 12), (11, 2)), ((2, 13), (21, 3)), ((3, 10), (31, 0)), ((1, 10), (11, 0)), ((7, 12), (71, 2)),
+               ((12, 3), (1, 23)), ((5, 11), (51, 1))]
+
+    def respace_case(self, cid):
+        """bodies that share every wire-creating instruction and differ in ONE scaled operand `c * w`: coefficient and wire number
+        are re-split so that the digits of the two tokens concatenate to the same text (`1 11` / `11 1`); returns the in-run case
+        (both bodies called: the inconsistency has to be reported) or two runs (the signatures have to differ)"""
+        rnd = self.rnd
+        pairs = [pq for pq in self.RESPACE if all(w >= 1 for _, w in pq)]
+        (c0, w0), (c1, w1) = rnd.choice(pairs)
+        if rnd.random() < 0.5: (c0, w0), (c1, w1) = (c1, w1), (c0, w0)
+        nw = max(w0, w1) + rnd.randrange(0, 3)
+        name = rnd.choice(["f", "lin", "scale"]) + str(len(self.funcs))
+        nparams = rnd.randrange(1, 3)
+        # wire k of the callee is register k-1: the parameters are copied first, then every instruction below creates one wire
+        pre = [["priv", self.small()] for _ in range(nw - nparams)]
+        pos = rnd.choice(["left", "right", "sum"])
+        self.tags.add("respace:" + pos)
+        variants = {}
+        for m, (c, w) in enumerate([(c0, w0), (c1, w1)]):
+            body = [list(x) for x in pre]
+            n = nw                                   # registers so far
+            body.append(["muli", w - 1, c]); sc = n; n += 1
+            if pos == "sum":
+                body.append(["add", sc, 0]); sc = n; n += 1
+            body.append(["mul", sc, 0] if pos != "right" else ["mul", 0, sc]); n += 1
+            variants[str(m)] = {"body": body, "ret": n - 1}
+        self.funcs[name] = {"params": ["L"] * nparams, "variants": variants}
+        self.order.append(name)
+        regs = []; main = []
+        for _ in range(nparams + rnd.randrange(0, 2)):
+            main.append(["priv", self.small()]); regs.append(Reg("L", 50))
+        cross = rnd.random() < 0.4
+        self.tags.add("respace:" + ("two-runs" if cross else "one-run"))
+        def calls(modes):
+            mn = [list(x) for x in main]; k = len(regs)
+            for md in modes:
+                mn.append(["call", name, md, [rnd.randrange(len(regs)) for _ in range(nparams)]]); k += 1
+            mn.append(["val", k - 1])
+            return mn
+        funcs = {k: {"variants": v["variants"]} for k, v in self.funcs.items()}
+        if not cross:
+            modes = [str(rnd.randrange(2)) for _ in range(rnd.randrange(2, 4))]
+            i, k = rnd.sample(range(len(modes)), 2); modes[i] = "0"; modes[k] = "1"
+            return [{"id": cid, "flavour": "respace", "funcs": funcs, "main": calls(modes), "tags": sorted(self.tags)}]
+        n = rnd.randrange(1, 3)
+        return [{"id": cid, "flavour": "respace", "funcs": funcs, "main": calls(["0"] * n), "tags": sorted(self.tags)},
+                {"id": cid + "-run2", "flavour": "respace", "funcs": funcs, "main": calls(["1"] * n), "tags": sorted(self.tags)}]
+
+
 FLAVOURS = [("flat", 3), ("calls", 6), ("nested", 4), ("coef", 2), ("one-ctx", 2), ("kinds", 2), ("empty", 1), ("variants", 2), ("bigtail", 1),
-            ("dup", 5)]
+            ("dup", 5), ("guard", 4), ("raise", 3), ("names", 1), ("respace", 3)]
 
 
 def corpus_dup():
@@ -459,6 +671,41 @@ def corpus():
         {"id": "corpus-variants", "flavour": "variants", "tags": ["corpus"],
          "funcs": {"v": {"variants": {"0": {"body": [["mul", 0, 0]], "ret": 1}, "1": {"body": [["mul", 0, 0], ["mul", 1, 0]], "ret": 2}}}},
          "main": [["priv", 2], ["call", "v", "0", [0]], ["call", "v", "1", [0]], ["pub", 0]]},
+        # a guard in effect across the call boundary: an assertion in the body / a multi-term result is tied to the caller's guard wire
+        {"id": "corpus-guard-assert", "flavour": "guard", "tags": ["corpus"],
+         "funcs": {"sq": {"variants": {"0": {"body": [["mul", 0, 0], ["mul", 0, 0], ["aeq", 1, 2]], "ret": 1}}}},
+         "main": [["priv", 3], ["privb", 1], ["guard", 1, [["call", "sq", "0", [0]]]]]},
+        {"id": "corpus-guard-multiret", "flavour": "guard", "tags": ["corpus"],
+         "funcs": {"dbl": {"variants": {"0": {"body": [["add", 0, 0]], "ret": 1}}}},
+         "main": [["priv", 3], ["privb", 0], ["guard", 1, [["call", "dbl", "0", [0]]]]]},
+        # the same with wire arguments, a multi-term ARGUMENT and a wire result: the guard stays in the caller's context, the split goes through
+        {"id": "corpus-guard-multiarg", "flavour": "guard", "tags": ["corpus"],
+         "funcs": {"sq": {"variants": {"0": {"body": [["mul", 0, 0]], "ret": 1}}}},
+         "main": [["priv", 3], ["privb", 0], ["add", 0, 0], ["guard", 1, [["call", "sq", "0", [2]]]], ["val", 3]]},
+        # a body that raises; the exception is caught and the program goes on
+        {"id": "corpus-raise-caught", "flavour": "raise", "tags": ["corpus"],
+         "funcs": {"thr": {"variants": {"0": {"body": [["mul", 0, 0], ["raise"]], "ret": 0}}}},
+         "main": [["priv", 3], ["try", [["call", "thr", "0", [0]]]], ["priv", 5], ["mul", 1, 1], ["val", 2]]},
+        {"id": "corpus-raise-nested", "flavour": "raise", "tags": ["corpus"],
+         "funcs": {"inner": {"variants": {"0": {"body": [["raise"]], "ret": 0}}},
+                   "outer": {"variants": {"0": {"body": [["try", [["call", "inner", "0", [0]]]], ["mul", 0, 0]], "ret": 1}}}},
+         "main": [["priv", 3], ["call", "outer", "0", [0]], ["val", 1]]},
+        {"id": "corpus-name-slash", "flavour": "names", "tags": ["corpus"],
+         "funcs": {"a/b": {"variants": {"0": {"body": [["mul", 0, 0]], "ret": 1}}}},
+         "main": [["priv", 3], ["call", "a/b", "0", [0]], ["val", 1]]},
+        # one name, two bodies whose normalised texts differ only in where a blank sits: `1 11 * 1 1 = 1 12 .` / `11 1 * 1 1 = 1 12 .`
+        {"id": "corpus-respace", "flavour": "respace", "tags": ["corpus"],
+         "funcs": {"f": {"variants": {"0": {"body": [["priv", 2]] * 10 + [["muli", 10, 1], ["mul", 11, 0]], "ret": 12},
+                                      "1": {"body": [["priv", 2]] * 10 + [["muli", 0, 11], ["mul", 11, 0]], "ret": 12}}}},
+         "main": [["priv", 2], ["call", "f", "0", [0]], ["call", "f", "1", [0]], ["val", 2]]},
+        {"id": "corpus-respace-run-a", "flavour": "respace", "tags": ["corpus"],
+         "funcs": {"f": {"variants": {"0": {"body": [["priv", 2]] * 10 + [["muli", 10, 1], ["mul", 11, 0]], "ret": 12},
+                                      "1": {"body": [["priv", 2]] * 10 + [["muli", 0, 11], ["mul", 11, 0]], "ret": 12}}}},
+         "main": [["priv", 2], ["call", "f", "0", [0]], ["val", 1]]},
+        {"id": "corpus-respace-run-b", "flavour": "respace", "tags": ["corpus"],
+         "funcs": {"f": {"variants": {"0": {"body": [["priv", 2]] * 10 + [["muli", 10, 1], ["mul", 11, 0]], "ret": 12},
+                                      "1": {"body": [["priv", 2]] * 10 + [["muli", 0, 11], ["mul", 11, 0]], "ret": 12}}}},
+         "main": [["priv", 2], ["call", "f", "1", [0]], ["val", 1]]},
     ] + corpus_dup()
 
 
@@ -469,6 +716,10 @@ def generate(rnd, n):
         fl = bag[i % len(bag)] if i < len(bag) else rnd.choice(bag)
         if fl == "dup":
             out.extend(Gen(rnd, fl).dup_case(f"g{i}-{fl}"))
+        elif fl == "respace":
+            out.extend(Gen(rnd, fl).respace_case(f"g{i}-{fl}"))
+        elif fl in ("guard", "raise", "names"):
+            out.append(getattr(Gen(rnd, fl), fl + "_case")(f"g{i}-{fl}"))
         else:
             out.append(Gen(rnd, fl).case(f"g{i}-{fl}"))
     return out
@@ -538,6 +789,10 @@ def parse_model(m):
         name, _, ls = fq.partition("=")
         out["P"][name] = lines(ls)
     out["N"] = [tuple(x.split("=")) for x in d.get("N", "").split(",") if x]
+    out["I"] = {}
+    for fq in [x for x in d.get("I", "").split("^") if x]:
+        name, _, text = fq.partition("=")
+        out["I"][name] = text
     return out
 
 
@@ -594,6 +849,9 @@ def correspond(o, m):
             diffs.append(f"on-disk content at proving time: real {len(dl)} lines, model flush pointer {m['F']}: " + first_diff(dl, m["E"][:m["F"]]))
     if lenient:
         return diffs, True
+    if any(" " in c["fn"] for c in o["calls"]):
+        # a function name with a blank: the model's lines are token lists, a blank inside a token is outside its domain
+        return diffs, True
     st = prove_status(o)
     if st != m["X"] and not (m["X"] == "ok" and st.startswith("other:RuntimeError")):
         diffs.append(f"outcome of the split: real {st} / model {m['X']}")
@@ -609,6 +867,16 @@ def correspond(o, m):
         for call, fn, hs, ncon in DIGEST.findall(o.get("stderr", "")):
             if fns.get(call) != fn: diffs.append(f"call {call}: function {fn} / model {fns.get(call)}")
             elif fn in m["P"] and md5lines(m["P"][fn]) != hs: diffs.append(f"digest of {fn} at call {call}: real {hs} / md5 of the model's text {md5lines(m['P'][fn])}")
+        # the digest INPUT: the signature the real code hands to key generation is hashlib's MD5 (first 10 hex digits) of exactly
+        # the byte string the model states (Qaptools.digestInput: the lines of the normalised set, in order, nothing in between)
+        for fn, sig in (o.get("sigs") or {}).items():
+            if fn not in m["I"]:
+                diffs.append(f"signature of {fn}: the model states no digest input"); continue
+            want = hashlib.md5(m["I"][fn].encode("utf-8")).hexdigest()[:10]
+            if want != sig:
+                diffs.append(f"signature of {fn} handed to key generation: real {sig} / md5 of the model's digest input {want}")
+        if set(m["I"]) != set(o.get("sigs") or m["I"]):
+            diffs.append(f"functions with a signature: real {sorted(o.get('sigs') or {})} / model {sorted(m['I'])}")
     return diffs, False
 
 
@@ -671,6 +939,8 @@ def multiset_cause(c1, c2):
     lines = set(c1) | set(c2)
     d = [abs(c1.get(l, 0) - c2.get(l, 0)) for l in lines]
     if not any(d): return "none"
+    def squeezed(c): return sorted("".join(l.split()) for l in c.elements())
+    if squeezed(c1) == squeezed(c2): return "same-text-up-to-token-boundaries"
     return "even-multiplicity-difference" if all(n % 2 == 0 for n in d) else "odd-multiplicity-difference"
 
 
@@ -743,13 +1013,31 @@ def oracle(case, o):
             if leaf and leaf[0] in "BX":
                 for term in [t for t in leaf.split("~")[2].split(",") if t]:
                     uncopied.setdefault(term.split("@")[1], leaf[0])
+    slashed = sorted({c["fn"] for c in o["calls"] if "/" in c["fn"] or " " in c["fn"]})
+    guard_wires = set()     # wires of the guards in effect when a call was entered or returned
+    for c in o["calls"]:
+        for gs in (c.get("guard_in"), (c.get("guard") or [None])[0]):
+            for term in [t for t in (gs or "").split(",") if t]:
+                guard_wires.add(term.split("@")[1])
+    leaks = [x for x in o.get("after_exception", []) if x[0] != x[1]]
     for l in mixed[:3]:
         cs = line_ctxs(l); ws = [t for t in toks(l) if "/" in t]
         foreign = [w for w in ws if w.partition("/")[0] != max(set(cs), key=cs.count)]
-        if all(w == "main/onex" for w in foreign): cause = "global-one"
+        if slashed: cause = "name-separator"
+        elif leaks: cause = "context-after-exception"
+        elif foreign and all(w == "main/onex" for w in foreign): cause = "global-one"
         elif any(w in uncopied for w in ws): cause = "uncopied-" + next(uncopied[w] for w in ws if w in uncopied)
+        elif foreign and all(w in guard_wires for w in foreign): cause = "guard-across-call"
+        elif any(w in guard_wires for w in ws) and len({w.partition("/")[0] for w in ws if w not in guard_wires}) <= 1: cause = "guard-across-call"
         else: cause = "other"
         bad.append(({"clause": "split-context", "cause": cause}, f"equation mixes contexts {sorted(set(cs))} ({cause}); prove(): {st}: {l[:160]}"))
+    if slashed and not mixed and st != "ok":
+        bad.append(({"clause": "split-error", "cause": "name-separator"}, f"function name {slashed[0]!r} contains a separator of the file grammar; prove(): {st}"))
+    # an exception raised in a body and caught outside it: the backend has to be back in the context the handler belongs to
+    for c0, c1 in leaks[:2]:
+        bad.append(({"clause": "split-context", "cause": "context-after-exception"},
+                    f"after an exception raised inside a @subqap body was caught in context {c0}, the current context is still {c1}: "
+                    f"everything traced from here on is written into the aborted call; prove(): {st}"))
     empty = [(c, bn) for c, bl in blocks.items() for bn, ws in bl if not ws]
     if empty:
         bad.append(({"clause": "split-error", "cause": "empty-block"}, f"[ioblock] {empty[0][0]} {empty[0][1]} lists no wire; prove(): {st}"))
